@@ -30,7 +30,8 @@ static const Logogram& logo_by_route(impl::Lexicon& lx, const std::string& name)
 {
    static std::map<std::string, unsigned> asked;
    static impl::Lexicon guest;
-   const std::string s = name == "-" ? std::string() : name;
+   std::string s = name == "-" ? std::string() : name;
+   for (std::size_t i = s.find("%00"); i != std::string::npos; i = s.find("%00", i + 1)) s.replace(i, 3, 1, '\0');
    const auto w = util::word_view(reinterpret_cast<const char8_t*>(s.data()), s.size());
    static const int pattern[] = { 1, 1, 0, 0, 2, 2, 0, 0, 3, 3, 4, 4, 0, 0 };
    switch (pattern[asked[name]++ % 14]) {
@@ -109,8 +110,9 @@ int main(int argc, char** argv)
          try { auto v = raw(ilx.specifiers(Basic_specifier{logo(lx, w)})); sfull |= v; std::cout << "S 0 " << w << ' ' << v << '\n'; } catch (...) { }
          try { auto v = raw(ilx.qualifiers(Basic_qualifier{logo(lx, w)})); qfull |= v; std::cout << "Q 0 " << w << ' ' << v << '\n'; } catch (...) { }
       }
-      std::cout << "DS " << names(ilx.decompose(Specifiers{sfull}), 0) << '\n';
-      std::cout << "DQ " << names(ilx.decompose(Qualifiers{qfull}), 0) << '\n';
+      // (for the reader of the tables; a refusal here is judged where the same value is decomposed as an op)
+      try { std::cout << "DS " << names(ilx.decompose(Specifiers{sfull}), 0) << '\n'; } catch (const std::exception&) { std::cout << "DS !refused\n"; }
+      try { std::cout << "DQ " << names(ilx.decompose(Qualifiers{qfull}), 0) << '\n'; } catch (const std::exception&) { std::cout << "DQ !refused\n"; }
 #define ACC(n) std::cout << "A " #n " " << raw(ilx.n()) << '\n';
       ACC(export_specifier) ACC(static_specifier) ACC(extern_specifier) ACC(mutable_specifier) ACC(thread_local_specifier)
       ACC(register_specifier) ACC(inline_specifier) ACC(constexpr_specifier) ACC(consteval_specifier) ACC(virtual_specifier)
